@@ -233,7 +233,9 @@ func (c *pipelineConn) closeWithErr(err error) {
 	c.m.Unlock()
 
 	c.cancelCause(err)
-	c.c.Close()
+	// Close may block. e.g. a tls connection tries to send a close_notify
+	// for up to 5s if the peer is not reading. Don't block the caller.
+	go c.c.Close()
 	debugLogTransportConnClosed(c.c, c.t.logger, err)
 }
 
